@@ -222,7 +222,7 @@ def r4_scottish(ctx):
     ctx.check(len(rets) == 1 and astx.u(rets[0].value) == "(profile, seats, cand_list, cand_to_party, ward)" and
               defs.get("profile") == "PreferenceProfile(ballots=tuple(ballots), candidates=tuple(cand_list)).condense_ballots()", f, rets[0] if rets else f.node,
               "returns (profile with the declared candidates, seats, names, parties, ward)", "", "return tuple changed")
-    keep = [n for n in astx.walk_own(f.node) if isinstance(n, ast.If) and astx.u(n.test) == "len(filtered_row) > 0"]
+    keep = [n for n in astx.walk_own(f.node) if isinstance(n, ast.If) and bool_key(Normalizer(f.node, inline=False).guard(n.test)) == "truthy(filtered_row)"]
     ctx.check(len(keep) == 1, f, keep[0] if keep else f.node, "blank rows are skipped, all others kept", "", "blank-row filter changed")
 
 
